@@ -1,5 +1,5 @@
 #!/bin/bash
-# verifies every seeded patch and hand-written mutant still applies to /repo's working tree
-for f in /verif/seeded/*/patch.diff /verif/mutants/*/*.patch; do
+# verifies every seeded patch, hand-written mutant and benign refactor still applies to /repo's working tree
+for f in /verif/seeded/*/patch.diff /verif/mutants/*/*.patch /verif/benign/*/patch.diff; do
   if ! git -C /repo apply --check --whitespace=nowarn "$f" 2>/dev/null; then echo "DOES NOT APPLY: $f"; fi
 done
